@@ -265,6 +265,9 @@ def register4(R, P):
             "EXACT:: " + DISCARD % ("(" + COND_CLEAR + ")"),
             "OTHERS-KEPT:: " + KEPT,
             "INPUT-KEPT:: implies(not clear_input and old(key in self.input_keys), key in self.data and key in self.input_keys)",
+            "REMOVED-LOSE-DATA:: all(implies(is_item(n) and old(has_node(self.model.tracegraph, n)) and not has_node(self.model.tracegraph, n), key(n) not in obj(n).data) for n in every('node'))",
+            "REMOVED-LOSE-INPUT:: all(implies(is_item(n) and old(has_node(self.model.tracegraph, n)) and not has_node(self.model.tracegraph, n), key(n) not in obj(n).input_keys) for n in every('node'))",
+            "CLOSED:: all(implies(old(has_edge(self.model.tracegraph, a, b)) and old(has_node(self.model.tracegraph, a)) and not has_node(self.model.tracegraph, a), not has_node(self.model.tracegraph, b)) for a in every('node') for b in every('node'))",
             "INPUT-FLAGS:: all(implies(is_item(n), (key(n) in obj(n).input_keys) == (old(key(n) in obj(n).input_keys) and not ((%s) and n in old(reach(self.model.tracegraph, item(self, key))))))"
             " for n in every('node'))" % COND_CLEAR,
             "NODES:: all(has_node(self.model.tracegraph, n) == (old(has_node(self.model.tracegraph, n)) and not ((%s) and n in old(reach(self.model.tracegraph, item(self, key))))) for n in every('node'))" % COND_CLEAR,
@@ -409,6 +412,13 @@ def register6(R, P):
             "COMPUTED-GONE:: all(implies(is_item(n) and obj(n) is self and key(n) in self.data, old(key(n) in self.data) and not clear_input and key(n) in self.input_keys) for n in every('node'))",
             # C09 (Q-2/Q-3): for an uncached cells the object node, and with it everything computed through the cells, is gone
             "OBJNODE-GONE:: implies(not self.is_cached, not has_node(self.model.tracegraph, objnode(self)))",
+            "REMOVED-LOSE-DATA:: all(implies(is_item(n) and old(has_node(self.model.tracegraph, n)) and not has_node(self.model.tracegraph, n), key(n) not in obj(n).data) for n in every('node'))",
+            "SHRINK:: all(implies(has_node(self.model.tracegraph, n), old(has_node(self.model.tracegraph, n))) for n in every('node'))"
+            " and all(implies(has_edge(self.model.tracegraph, a, b), old(has_edge(self.model.tracegraph, a, b))) for a in every('node') for b in every('node'))",
+            "INPUT-SHRINK:: all(implies(is_item(n) and key(n) in obj(n).input_keys, old(key(n) in obj(n).input_keys)) for n in every('node'))",
+            "REMOVED-LOSE-INPUT:: all(implies(is_item(n) and old(has_node(self.model.tracegraph, n)) and not has_node(self.model.tracegraph, n), key(n) not in obj(n).input_keys) for n in every('node'))",
+            "CLOSED:: all(implies(old(has_edge(self.model.tracegraph, a, b)) and old(has_node(self.model.tracegraph, a)) and not has_node(self.model.tracegraph, a), not has_node(self.model.tracegraph, b)) for a in every('node') for b in every('node'))",
+            "EDGES-RESTRICT:: all(has_edge(self.model.tracegraph, a, b) == (old(has_edge(self.model.tracegraph, a, b)) and has_node(self.model.tracegraph, a) and has_node(self.model.tracegraph, b)) for a in every('node') for b in every('node'))",
             "OTHERS-KEPT:: all(implies(is_item(n) and key(n) in obj(n).data, old(key(n) in obj(n).data) and obj(n).data[key(n)] == old(obj(n).data[key(n)])) for n in every('node'))",
             "HELD:: HELD(self.model.tracegraph)", "GWF:: GWF(self.model.tracegraph)", "RGWF:: RGWF(self.model.refgraph)",
         ],
@@ -423,7 +433,12 @@ def register6(R, P):
             "all(implies(k in self.input_keys, k in self.data) for k in every('key'))",
             "INPUT_BARE(self.model.tracegraph)",
             "all(implies(k in self.data, has_node(self.model.tracegraph, item(self, k))) for k in every('key'))",
+            "all(implies(is_item(n) and old(has_node(self.model.tracegraph, n)) and not has_node(self.model.tracegraph, n), key(n) not in obj(n).data) for n in every('node'))",
+            "all(implies(has_node(self.model.tracegraph, n), old(has_node(self.model.tracegraph, n))) for n in every('node'))",
             "all(implies(is_item(n) and key(n) in obj(n).input_keys, old(key(n) in obj(n).input_keys)) for n in every('node'))",
+            "all(implies(is_item(n) and old(has_node(self.model.tracegraph, n)) and not has_node(self.model.tracegraph, n), key(n) not in obj(n).input_keys) for n in every('node'))",
+            "all(implies(old(has_edge(self.model.tracegraph, a, b)) and old(has_node(self.model.tracegraph, a)) and not has_node(self.model.tracegraph, a), not has_node(self.model.tracegraph, b)) for a in every('node') for b in every('node'))",
+            "all(has_edge(self.model.tracegraph, a, b) == (old(has_edge(self.model.tracegraph, a, b)) and has_node(self.model.tracegraph, a) and has_node(self.model.tracegraph, b)) for a in every('node') for b in every('node'))",
             "all(implies(has_edge(self.model.tracegraph, a, b), old(has_edge(self.model.tracegraph, a, b))) for a in every('node') for b in every('node'))",
         ], "modifies": ["content(self.model.tracegraph)", "content(self.model.refgraph)", "every_content('dict[key,val]')", "every_content('set[key]')"]}},
         modifies=["content(self.model.tracegraph)", "content(self.model.refgraph)", "every_content('dict[key,val]')", "every_content('set[key]')"],
